@@ -89,6 +89,42 @@ def explore(ctx, run_one, args, bound, max_execs=None, label="", choice_kinds=No
     return stats
 
 
+def explore_local(run_one, args, bound, max_execs=None, choice_kinds=None, stop_on_violation=True):
+    """The same deviation-bounded enumeration, run sequentially in the calling process (for many tiny plans, where
+    one worker explores one whole plan).  -> dict(executions, obs, violations, capped, completed_bound)."""
+    out = {"executions": 0, "obs": set(), "violations": [], "capped": False, "completed_bound": -1, "choice_points": 0}
+    buckets = {d: [] for d in range(bound + 1)}
+    buckets[0].append(())
+    for d in range(bound + 1):
+        while buckets[d]:
+            frontier, buckets[d] = buckets[d], []
+            for p in frontier:
+                if max_execs is not None and out["executions"] >= max_execs:
+                    out["capped"] = True
+                    return out
+                res = run_one((args, p))
+                trace = [tuple(t) for t in res["trace"]]
+                plen = res["prefix_len"]
+                out["executions"] += 1
+                out["choice_points"] += len(trace)
+                out["obs"].add(res.get("obs"))
+                if res.get("violations"):
+                    out["violations"].extend(res["violations"])
+                    if stop_on_violation:
+                        return out
+                for i in range(plen, len(trace)):
+                    kind, n, c = trace[i]
+                    if choice_kinds is not None and kind.rstrip("*") not in choice_kinds:
+                        continue
+                    nd = d + _cost(kind)
+                    if nd > bound:
+                        continue
+                    for alt in range(1, n):
+                        buckets[nd].append(tuple(trace[:i]) + ((kind, n, alt),))
+        out["completed_bound"] = d
+    return out
+
+
 def run_with(prefix, body):
     """Helper for run_one implementations: body(chooser) -> dict; adds trace/prefix_len."""
     from .vloop import Chooser
